@@ -16,20 +16,37 @@ pub struct BinOrders {
     pub genes: Order,
     pub omim: Order,
     pub orpha: Order,
+    /// order of the ids *inside* a record (parents of a term, terms of a gene / disease). The layout
+    /// documents "the Term ID of all parents" / "the HPO Term IDs of the associated terms" without any order.
+    #[serde(default = "Order::canonical")]
+    pub inner: Order,
 }
 
 impl BinOrders {
     pub fn draw(r: &mut Prng) -> BinOrders {
-        BinOrders { terms: Order::draw(r), parents: Order::draw(r), genes: Order::draw(r), omim: Order::draw(r), orpha: Order::draw(r) }
+        let inner = if r.chance(1, 2) { Order::canonical() } else { Order { mode: *r.pick(&[crate::channel::Mode::IdDesc, crate::channel::Mode::Random, crate::channel::Mode::Random]), seed: r.next_u64() } };
+        BinOrders { terms: Order::draw(r), parents: Order::draw(r), genes: Order::draw(r), omim: Order::draw(r), orpha: Order::draw(r), inner }
     }
     pub fn canonical() -> BinOrders {
         let c = Order::canonical();
-        BinOrders { terms: c, parents: c, genes: c, omim: c, orpha: c }
+        BinOrders { terms: c, parents: c, genes: c, omim: c, orpha: c, inner: c }
     }
 }
 
 fn be(n: usize) -> [u8; 4] {
     (u32::try_from(n).expect("fits u32")).to_be_bytes()
+}
+
+/// ids of one record in the scheduled inner order (ascending, descending or keyed random)
+fn inner_order(ids: impl Iterator<Item = u32>, o: Order, salt: u64) -> Vec<u32> {
+    use crate::channel::Mode;
+    let mut v: Vec<u32> = ids.collect();
+    match o.mode {
+        Mode::IdDesc => v.sort_unstable_by(|a, b| b.cmp(a)),
+        Mode::Random => v.sort_by_key(|x| crate::prng::mix2(o.seed ^ salt, u64::from(*x))),
+        _ => v.sort_unstable(),
+    }
+    v
 }
 
 fn term_record(t: &TermFact, version: u8) -> Vec<u8> {
@@ -48,7 +65,7 @@ fn term_record(t: &TermFact, version: u8) -> Vec<u8> {
     v
 }
 
-fn gene_record(r: &Rec) -> Vec<u8> {
+fn gene_record(r: &Rec, inner: Order) -> Vec<u8> {
     let name = cut255(&r.name);
     let nb = name.as_bytes();
     let total = 4 + 4 + 1 + nb.len() + 4 + 4 * r.terms.len();
@@ -58,13 +75,13 @@ fn gene_record(r: &Rec) -> Vec<u8> {
     v.push(nb.len() as u8);
     v.extend_from_slice(nb);
     v.extend_from_slice(&be(r.terms.len()));
-    for t in &r.terms {
+    for t in inner_order(r.terms.iter().copied(), inner, u64::from(r.id)) {
         v.extend_from_slice(&t.to_be_bytes());
     }
     v
 }
 
-fn disease_record(r: &Rec) -> Vec<u8> {
+fn disease_record(r: &Rec, inner: Order) -> Vec<u8> {
     let nb = r.name.as_bytes();
     let total = 4 + 4 + 4 + nb.len() + 4 + 4 * r.terms.len();
     let mut v = vec![];
@@ -73,7 +90,7 @@ fn disease_record(r: &Rec) -> Vec<u8> {
     v.extend_from_slice(&be(nb.len()));
     v.extend_from_slice(nb);
     v.extend_from_slice(&be(r.terms.len()));
-    for t in &r.terms {
+    for t in inner_order(r.terms.iter().copied(), inner, u64::from(r.id)) {
         v.extend_from_slice(&t.to_be_bytes());
     }
     v
@@ -108,25 +125,25 @@ pub fn encode(f: &FactSet, version: u8, ord: &BinOrders) -> Vec<u8> {
         let ps = &pm[&t.id];
         body.extend_from_slice(&be(ps.len()));
         body.extend_from_slice(&t.id.to_be_bytes());
-        for p in ps {
+        for p in inner_order(ps.iter().copied(), ord.inner, u64::from(t.id)) {
             body.extend_from_slice(&p.to_be_bytes());
         }
     }
     section(&mut out, body);
     let mut body = vec![];
     for r in ordered_recs(f, Kind::Gene, ord.genes) {
-        body.extend_from_slice(&gene_record(&r));
+        body.extend_from_slice(&gene_record(&r, ord.inner));
     }
     section(&mut out, body);
     let mut body = vec![];
     for r in ordered_recs(f, Kind::Omim, ord.omim) {
-        body.extend_from_slice(&disease_record(&r));
+        body.extend_from_slice(&disease_record(&r, ord.inner));
     }
     section(&mut out, body);
     if version >= 3 {
         let mut body = vec![];
         for r in ordered_recs(f, Kind::Orpha, ord.orpha) {
-            body.extend_from_slice(&disease_record(&r));
+            body.extend_from_slice(&disease_record(&r, ord.inner));
         }
         section(&mut out, body);
     }
